@@ -120,8 +120,9 @@ def run_property(prop, title, obligations, prog, tier, explanation, assumptions,
         real = []
         uniq, seen_keys = [], set()
         for f in ob.findings:
-            if f.key(prop) not in seen_keys:
-                seen_keys.add(f.key(prop))
+            k_ = f.key(prop) + "|" + f.message[:80]
+            if k_ not in seen_keys:
+                seen_keys.add(k_)
                 uniq.append(f)
         ob.findings = uniq
         for f in ob.findings:
